@@ -243,6 +243,9 @@ func checkC04(c *Check) {
 	c.mustPass(spg, "O-C04.2", "Revoked: status Revoked", "an OCSP Revoked verdict", revS, revoked)
 	// a Revoked answer yields Revoked unless exempt: from +Revoked the OK verdict needs the strict comparison
 	c.noPathFrom(spg, "O-C04.2", "Revoked answer is not OK", "after status Revoked an OK verdict needs the invalidity-date exemption", revoked, okS, ptr(A("+TLt(p3.SigningTime, "+unm+"!1)")))
+	// ... and never Unknown: once the (validated) response says Revoked the verdict is Revoked or the exempt OK
+	// (an Unknown here would let the full validator fall back to CRLs and soften a revocation)
+	c.noPathFrom(spg, "O-C04.5", "Revoked answer is final", "after status Revoked no Unknown verdict is produced", revoked, unkS, nil)
 	// Unknown-status: neither Good nor Revoked
 	var unkStatus []*PState
 	for _, s := range unkS {
